@@ -349,7 +349,10 @@ impl Protocol for V4 {
             // currently we can't conditionally set them based on v5 or v4,
             // so we ignore them, as properties can't be there in v4.
             Packet::ConnAck(connack, _) => connack::write(&connack, buffer)?,
-            Packet::Publish(publish, None) => publish::write(&publish, buffer)?,
+            // A publish that came in through an MQTT 5 listener (or a will with will
+            // properties) carries properties; they can't be expressed in v4, so they are
+            // dropped when the message is forwarded to a v4 connection.
+            Packet::Publish(publish, _) => publish::write(&publish, buffer)?,
             Packet::PubAck(puback, None) => puback::write(&puback, buffer)?,
             Packet::Subscribe(subscribe, None) => subscribe::write(&subscribe, buffer)?,
             Packet::SubAck(suback, None) => suback::write(&suback, buffer)?,
